@@ -33,7 +33,7 @@ type cdScenario struct {
 	Seed  int64         `json:"seed"`
 	Path  string        `json:"path"` // a corpus file below Root, used instead of decls/text
 	Root  string        `json:"root"`
-	Cli   string        `json:"cli"`  // encode with this sysl binary ("pb" command) instead of the library calls
+	Cli   string        `json:"cli"` // encode with this sysl binary ("pb" command) instead of the library calls
 	Tmp   string        `json:"tmp"`
 	// a document that is not a compiled model, imported once as api.json and once as api.yaml
 	Foreign string `json:"foreign"`
